@@ -221,6 +221,29 @@ func RunWorker(t *testing.T) {
 		return
 	}
 	master := uint64(envInt("VERIF_SEED", 1))
+	if n := envInt("VERIF_DETLIST", 0); n > 0 {
+		// determinism self-test: the event-log hashes of the first n runs, to be diffed across processes
+		type row struct {
+			Index   int    `json:"index"`
+			Seed    uint64 `json:"seed"`
+			LogHash uint64 `json:"log_hash"`
+			Steps   int    `json:"steps"`
+			Sigs    string `json:"sigs"`
+		}
+		var rows []row
+		for i := 0; i < n; i++ {
+			seed := mix(master, prop, tier, "0", strconv.Itoa(i))
+			if sc.FixedSeed != nil {
+				if fs, ok := sc.FixedSeed(tier, i, master); ok {
+					seed = fs
+				}
+			}
+			r := execRun(t, sc, tier, seed, i, nil)
+			rows = append(rows, row{i, seed, r.LogHash, r.Steps, failSigs(r) + strings.Join(r.Infra, "|")})
+		}
+		writeJSON(t, out, map[string]any{"det": rows})
+		return
+	}
 	worker := envInt("VERIF_WORKER", 0)
 	start := envInt("VERIF_START", 0)
 	maxRuns := envInt("VERIF_MAXRUNS", 1<<30)
